@@ -32,6 +32,10 @@ def block_of(I):
     return b
 
 
+def block_of_nets(ns):
+    return None
+
+
 def new_wire(I, bw, den=None, cls='WireVector', hint='w'):
     """bw: z3 Int / int / None; den: z3 Int / int / None"""
     z3 = _z3()
